@@ -370,6 +370,7 @@ func profileFor0(prop string, r *sim.Rand, i int, quick bool) sim.Profile {
 		p.MaxTx = 10
 		p.EvidencePct, p.BurnPct = 0, 0
 		p.SecondDenom = i%3 == 0
+		p.ForeignKeyAccount = i%4 == 1
 	case "C05", "C06", "C09":
 		small = true
 		p = baseProfile(r, true)
